@@ -5,6 +5,7 @@ import (
 
 	"github.com/go-kid/ioc/component_definition"
 	"github.com/go-kid/ioc/container/processors"
+	"github.com/go-kid/ioc/definition"
 )
 
 // SubPlan says when a component is replaced by a Wrap object.
@@ -136,3 +137,115 @@ type EarlySubstituter struct{ *Substituter }
 func (s EarlySubstituter) Order() int     { return -1 << 40 }
 func (s EarlySubstituter) Priority()      {}
 func (s EarlySubstituter) Naming() string { return "verif.earlysubstituter" }
+
+// ---------------------------------------------------------------------------------------------
+// Decorator: runners and closers exposed through decorators (a tracing/timing wrapper around each)
+
+type decoBase struct{ Inner any }
+
+func (d *decoBase) run() error   { return d.Inner.(definition.ApplicationRunner).Run() }
+func (d *decoBase) close() error { return d.Inner.(definition.CloserComponent).Close() }
+func (d *decoBase) order() int   { return d.Inner.(definition.Ordered).Order() }
+
+// one decorator type per combination of the roles the decorated component plays; none has a Naming of its own
+type (
+	RunDeco          struct{ decoBase }
+	RunDecoOrd       struct{ decoBase }
+	RunDecoPrio      struct{ decoBase }
+	CloseDeco        struct{ decoBase }
+	RunCloseDeco     struct{ decoBase }
+	RunCloseDecoOrd  struct{ decoBase }
+	RunCloseDecoPrio struct{ decoBase }
+)
+
+func (d *RunDeco) Run() error            { return d.run() }
+func (d *RunDecoOrd) Run() error         { return d.run() }
+func (d *RunDecoOrd) Order() int         { return d.order() }
+func (d *RunDecoPrio) Run() error        { return d.run() }
+func (d *RunDecoPrio) Order() int        { return d.order() }
+func (d *RunDecoPrio) Priority()         {}
+func (d *CloseDeco) Close() error        { return d.close() }
+func (d *RunCloseDeco) Run() error       { return d.run() }
+func (d *RunCloseDeco) Close() error     { return d.close() }
+func (d *RunCloseDecoOrd) Run() error    { return d.run() }
+func (d *RunCloseDecoOrd) Close() error  { return d.close() }
+func (d *RunCloseDecoOrd) Order() int    { return d.order() }
+func (d *RunCloseDecoPrio) Run() error   { return d.run() }
+func (d *RunCloseDecoPrio) Close() error { return d.close() }
+func (d *RunCloseDecoPrio) Order() int   { return d.order() }
+func (d *RunCloseDecoPrio) Priority()    {}
+
+// Decorator is a post-processor that exposes the chosen runner/closer components through a decorator (one
+// per component) which forwards Run, Close and the ordering role to the decorated component. Like a proxy
+// creator it decorates either when the early reference is taken or after initialisation, never both: once
+// the early reference has been handed out, the component passes the after-initialisation step unchanged and
+// the container keeps exposing the early reference.
+type Decorator struct {
+	processors.DefaultInstantiationAwareComponentPostProcessor
+	Names map[string]bool
+	mu    sync.Mutex
+	Made  map[string]any
+	early map[string]bool
+}
+
+func NewDecorator(names ...string) *Decorator {
+	d := &Decorator{Names: map[string]bool{}, Made: map[string]any{}}
+	for _, n := range names {
+		d.Names[n] = true
+	}
+	return d
+}
+
+func (d *Decorator) Naming() string { return "verif.decorator" }
+
+func (d *Decorator) deco(c any, name string, early bool) any {
+	d.mu.Lock()
+	defer d.mu.Unlock()
+	if !d.Names[name] {
+		return c
+	}
+	if d.early == nil {
+		d.early = map[string]bool{}
+	}
+	if early {
+		d.early[name] = true
+	} else if d.early[name] {
+		return c
+	}
+	if w, ok := d.Made[name]; ok {
+		return w
+	}
+	_, isRun := c.(definition.ApplicationRunner)
+	_, isClose := c.(definition.CloserComponent)
+	_, isOrd := c.(definition.Ordered)
+	_, isPrio := c.(definition.Priority)
+	b := decoBase{Inner: c}
+	var w any
+	switch {
+	case isRun && isClose && isOrd && isPrio:
+		w = &RunCloseDecoPrio{b}
+	case isRun && isClose && isOrd:
+		w = &RunCloseDecoOrd{b}
+	case isRun && isClose:
+		w = &RunCloseDeco{b}
+	case isRun && isOrd && isPrio:
+		w = &RunDecoPrio{b}
+	case isRun && isOrd:
+		w = &RunDecoOrd{b}
+	case isRun:
+		w = &RunDeco{b}
+	case isClose:
+		w = &CloseDeco{b}
+	default:
+		return c
+	}
+	d.Made[name] = w
+	return w
+}
+
+func (d *Decorator) GetEarlyBeanReference(c any, name string) (any, error) {
+	return d.deco(c, name, true), nil
+}
+func (d *Decorator) PostProcessAfterInitialization(c any, name string) (any, error) {
+	return d.deco(c, name, false), nil
+}
